@@ -69,6 +69,11 @@ def _sc(x):
 
 def _qpair(x):
     f = Fraction(float(x))
+    if f.denominator > 4096 and abs(f) < 200:
+        # not one of the exactly representable inputs the harness feeds (a changed weight or value): log the
+        # nearest small rational -- TLC then judges the run against what the accumulator was really given, and
+        # the comparison with the exported exact statistics (binding A) judges what it should have been given
+        f = f.limit_denominator(4096)
     if f.denominator > 4096 or abs(f.numerator) > 10 ** 6:
         raise RuntimeError('value %r is not a small rational: cannot be logged exactly' % (x,))
     return [f.numerator, f.denominator]
